@@ -154,6 +154,40 @@ func runC13(w *World, r *Report) {
 	shareRule(w, r, "C13.tool-panic-lands-on-its-own-task", "the recover handler of a tool-call goroutine writes the panic into the task it was started for (a parameter of the goroutine), never through the loop variable of the spawning loop: under go 1.18 semantics that variable is shared and has moved on — an index out of range inside the deferred function of an unrecovered goroutine kills the process", 6, "C17", "C17.parallel-protocol")
 	shareRule(w, r, "C13.tool-goroutines-capture-no-loop-variable", "no literal started as a goroutine in the tools node captures a loop variable", 1, "C17", "C17.loopvar")
 	shareRule(w, r, "C13.source-panic-lands-in-the-cell", "a panic of the source of a copied stream is recorded in the shared cell (inside the Once): every copy reads the same error item, not a zero chunk and a clean end on all copies but the one that ran the source", 1, "C08", "C08.copy-cell")
+	shareRule(w, r, "C13.failed-task-does-not-strand-its-siblings", "after a finished task is taken from the one-slot channel the next queued result is moved up whatever the task's outcome: waitAll keeps waiting behind a failed task, and results left in the backlog make a node error or panic hang the run instead of ending it with that error", 1, "C03", "C03.refill-after-receive")
+	r.Rule("C13.receiving-does-not-close", "no receive method of a reader in package schema closes the reader (or its sources) on its own: closing is the consumer's, and the receive side of a stream is closed by an unguarded close(chan) — a merged reader that closes itself when an error item arrives makes the consumer's own, correct Close panic 'close of closed channel' (a failing parallel producer becomes a panic of the consumer, errors.Is on the original error false)", 4)
+	{
+		n := 0
+		for _, fn := range w.RepoFuncs("schema") {
+			if fn.Parent() != nil || fn.Signature.Recv() == nil {
+				continue
+			}
+			if nm := fn.Name(); nm != "recv" && nm != "Recv" && nm != "nakedRecv" && nm != "recvAny" {
+				continue
+			}
+			n++
+			bad := ""
+			instrs(fn, func(in ssa.Instruction) {
+				if _, isDefer := in.(*ssa.Defer); isDefer {
+					return
+				}
+				c, ok := in.(ssa.CallInstruction)
+				if !ok {
+					return
+				}
+				if sc := staticCallee(c); sc != nil && w.inRepo(sc) {
+					switch sc.Name() {
+					case "close", "Close", "closeRecv":
+						bad = w.fname(origin(sc))
+					}
+				}
+			})
+			r.Check(bad == "", "C13.receiving-does-not-close", w.fname(origin(fn))+" closes nothing", fn.Pos(), "no call of a close method", "the receive method calls "+bad+": the reader is closed behind the consumer's back, and the consumer's own Close closes every source a second time — 'close of closed channel' in the consumer (or in the caller's goroutine when the fan-in is at END); with two failing sources the second error item is dropped")
+		}
+		if n < 4 {
+			undecidedf("C13.receiving-does-not-close: only %d receive methods found in package schema", n)
+		}
+	}
 
 	r.Rule("C13.percent-w", "fmt.Errorf with an error operand on the run path uses %w", 30)
 	// armed: the framework's own propagation path between a node's return and the run's return, i.e.
